@@ -27,12 +27,12 @@ func runC01(c *Ctx, r *Report) {
 	r.Doc("R-C01.3", "merged heads depend on destination heads, source heads, new items' predecessor links and the destination's predecessor index")
 	r.Doc("R-C01.4", "the apply phase indexes and inserts every new item unconditionally")
 	r.Doc("R-C01.5", "ordered-map copies and merges do not alias or mutate their sources")
-	join := p.Func("", "IPFSLog", "Join")
+	join := p.FuncI("", "IPFSLog", "Join")
 
 	// ---- R-C01.1
 	var roots []*Fn
 	for _, t := range []struct{ pkg, recv, name string }{{"", "IPFSLog", "Join"}, {"", "IPFSLog", "Append"}, {"", "IPFSLog", "values"}, {"", "IPFSLog", "traverse"}, {"", "IPFSLog", "Heads"}, {"", "IPFSLog", "ToJSONLog"}, {"entry", "", "FindHeads"}, {"", "", "difference"}} {
-		roots = append(roots, p.Func(t.pkg, t.recv, t.name))
+		roots = append(roots, p.FuncI(t.pkg, t.recv, t.name))
 	}
 	om := p.Named("entry", "OrderedMap")
 	for i := 0; i < om.NumMethods(); i++ {
@@ -41,7 +41,7 @@ func runC01(c *Ctx, r *Report) {
 		}
 	}
 	for _, n := range []string{"Sort", "SortByClocks", "SortByClockID", "SortByEntryHash", "LastWriteWins", "FirstWriteWins", "NoZeroes", "Compare", "First"} {
-		roots = append(roots, p.Func("entry/sorting", "", n))
+		roots = append(roots, p.FuncI("entry/sorting", "", n))
 	}
 	closure := c.CG.Reach(roots, false)
 	// exclude the block-writing side (entry creation talks to the store; its output is covered by C08)
@@ -121,55 +121,8 @@ func runC01(c *Ctx, r *Report) {
 	r.Floor("R-C01.2", "state changes in Join", nsc, 3)
 
 	// ---- R-C01.3
-	sf := p.SSAFunc(join)
-	headsF, nextF, entriesF := p.Field("", "IPFSLog", "heads"), p.Field("", "IPFSLog", "Next"), p.Field("", "IPFSLog", "Entries")
-	hs := fieldStores(sf, headsF, false)
-	if len(hs) == 0 {
-		r.Violate("R-C01.3", r.Key("R-C01.3", join, "heads-store", ""), join.Body.Pos(), "Join never stores the merged heads")
-	} else {
-		// the unbounded merge's store: the first in dominance order
-		sort.Slice(hs, func(i, j int) bool { return instrDominates(hs[i], hs[j]) })
-		st := hs[0]
-		bs := backSliceOpt(st.Val, nil, true)
-		other := sf.Params[1]
-		if len(sf.Params) < 3 {
-			infra("Join signature changed")
-		}
-		dep := map[string]bool{}
-		for x := range bs {
-			switch y := x.(type) {
-			case *ssa.UnOp:
-				if y.Op == token.MUL {
-					switch f, _ := fieldOf(y.X); f {
-					case headsF:
-						dep["destination heads"] = true
-					case nextF, entriesF:
-						dep["destination predecessor/entry index"] = true
-					}
-				}
-			case *ssa.Call:
-				if y.Call.IsInvoke() {
-					switch y.Call.Method.Name() {
-					case "RawHeads", "Heads", "ToSnapshot":
-						if derivesFromParam(y.Call.Value, other) {
-							dep["source heads"] = true
-						}
-					case "GetNext":
-						dep["predecessor links of the new items"] = true
-					}
-				}
-			}
-		}
-		for _, need := range []string{"destination heads", "source heads", "predecessor links of the new items", "destination predecessor/entry index"} {
-			r.Check(dep[need], "R-C01.3", r.Key("R-C01.3", join, "heads-depend-on", need), st.Pos(),
-				"the merged head set depends on the "+need, "the head set stored by the merge does not depend on the "+need+": "+map[string]string{
-					"destination heads":                    "the destination's own heads are lost",
-					"source heads":                         "the source's heads never become heads",
-					"predecessor links of the new items":   "an old head named by a merged entry stays a head (heads then depend on merge order)",
-					"destination predecessor/entry index": "a source head that the destination already extends becomes a spurious head (heads then depend on merge order)",
-				}[need])
-		}
-	}
+	mergedHeadsDeps(c, r, "R-C01.3", join)
+	nextF, entriesF := p.Field("", "IPFSLog", "Next"), p.Field("", "IPFSLog", "Entries")
 
 	// ---- R-C01.4
 	nApply := 0
@@ -248,7 +201,7 @@ func runC01(c *Ctx, r *Report) {
 	le := repoLockEngine(c)
 	split := false
 	for _, sp := range le.Splits {
-		if sp.Fn.Root() == join {
+		if sp.Fn.Root() == orig(join) {
 			split = true
 			r.Violate("R-C01.6", r.Key("R-C01.6", join, "store-after-reopen", sp.Field), sp.Pos, "Join releases the destination's lock between computing the merge and storing "+sp.Field+": an append completing in the window stays in the index but is lost from the heads (and is never propagated)")
 		}
@@ -261,7 +214,7 @@ func runC01(c *Ctx, r *Report) {
 // pureMerge: OrderedMap.Merge builds a new map and only reads its operands (shared by C01 and C03).
 func pureMerge(c *Ctx, r *Report, rule string) {
 	p := c.P
-	mg := p.Func("entry", "OrderedMap", "Merge")
+	mg := p.FuncI("entry", "OrderedMap", "Merge")
 	mutates := ""
 	walkNoLit(mg.Body, func(nd ast.Node) bool {
 		if call, ok := nd.(*ast.CallExpr); ok {
@@ -301,4 +254,59 @@ func insideLoop(p *Prog, fn *Fn, n ast.Node) bool {
 
 func derivesFromParam(v ssa.Value, par *ssa.Parameter) bool {
 	return backSlice(v, nil)[par]
+}
+
+// mergedHeadsDeps: the head set stored by the unbounded merge depends on the four inputs a correct merge needs.
+func mergedHeadsDeps(c *Ctx, r *Report, rule string, join *Fn) {
+	p := c.P
+	sf := p.SSAFunc(join)
+	headsF, nextF, entriesF := p.Field("", "IPFSLog", "heads"), p.Field("", "IPFSLog", "Next"), p.Field("", "IPFSLog", "Entries")
+	hs := fieldStores(sf, headsF, false)
+	if len(hs) == 0 {
+		r.Violate(rule, r.Key(rule, join, "heads-store", ""), join.Body.Pos(), "Join never stores the merged heads")
+	} else {
+		// the unbounded merge's store: the first in dominance order
+		sort.Slice(hs, func(i, j int) bool { return instrDominates(hs[i], hs[j]) })
+		st := hs[0]
+		bs := backSliceOpt(st.Val, nil, true)
+		other := sf.Params[1]
+		if len(sf.Params) < 3 {
+			infra("Join signature changed")
+		}
+		dep := map[string]bool{}
+		for x := range bs {
+			switch y := x.(type) {
+			case *ssa.UnOp:
+				if y.Op == token.MUL {
+					switch f, _ := fieldOf(y.X); f {
+					case headsF:
+						dep["destination heads"] = true
+					case nextF, entriesF:
+						dep["destination predecessor/entry index"] = true
+					}
+				}
+			case *ssa.Call:
+				if y.Call.IsInvoke() {
+					switch y.Call.Method.Name() {
+					case "RawHeads", "Heads", "ToSnapshot":
+						if derivesFromParam(y.Call.Value, other) {
+							dep["source heads"] = true
+						}
+					case "GetNext":
+						dep["predecessor links of the new items"] = true
+					}
+				}
+			}
+		}
+		for _, need := range []string{"destination heads", "source heads", "predecessor links of the new items", "destination predecessor/entry index"} {
+			r.Check(dep[need], rule, r.Key(rule, join, "heads-depend-on", need), st.Pos(),
+				"the merged head set depends on the "+need, "the head set stored by the merge does not depend on the "+need+": "+map[string]string{
+					"destination heads":                    "the destination's own heads are lost",
+					"source heads":                         "the source's heads never become heads",
+					"predecessor links of the new items":   "an old head named by a merged entry stays a head (heads then depend on merge order)",
+					"destination predecessor/entry index": "a source head that the destination already extends becomes a spurious head (heads then depend on merge order)",
+				}[need])
+		}
+	}
+
 }
